@@ -364,7 +364,8 @@ func convertValueToType(val value.Value, expectedType value.Type) (value.Value, 
 	// propagating into the function argument or return value.
 	// Because of that they are still delegated to Assign function.
 	if val.Type() == expectedType && !val.IsLiteral() {
-		return val, nil
+		// copy: arguments and return values are passed by value
+		return val.Copy(), nil
 	}
 	// additional restrictions specific to function calls
 	// on top of what is already enforced by Assign function
